@@ -36,6 +36,10 @@ CLAIMED = {
          'Decides that the NAT writes exactly from.address and visible_ep[0].address (with the address fixed at construction), that the latter happens for exactly the initiator\'s SYN, that every path forwards once, and that the user-visible endpoint views read the fields the NAT writes while the true endpoints have no writer. Run-time payload/ordering/timing are decided only as "no writer exists".', '4/C13'),
  'C14': ('static: CFG reachability between the literal branch and the configuration call, mutation-kind table on the lookup queue, handler-flow rule (every handler through the queue), must-follow re-arm rule, origin rule on the start time',
          'Decides that literals cannot reach the configuration and complete 1 us later, that results keep configuration order and the parsed port, that the queue is FIFO and every handler passes through it, that the timer is re-armed for the front entry whenever the queue stays non-empty, that a new lookup starts from now() or the LAST queued entry, and that cancel/destructor abort everything. Completion instants are not decided.', '4/C14'),
+ 'C15': ('static: linear-normal-form comparison of every scan call\'s (pointer, length) against the remaining bytes, entailment of the memcmp window bound from the loop guard, literal-length agreement, null-check dominance, loop-variant rule',
+         'Decides in-bounds and termination of the parser: every scan gets exactly the remaining length, the window inside find() stays in the haystack, needle lengths match their literals, every search result is null-checked before use with a throwing edge, and the header loop strictly advances. Round-tripping of well-formed requests is not decided.', '4/C15'),
+ 'C16': ('static: call-graph reachability from stop() to the real close, exactly-once path rule for the response write, re-entry rule after keep-alive responses, linear-form agreement of content-length and generated body',
+         'Decides that stop() really stops listening (all three test servers), that one response is started per parsed request except on the stall path, that the buffer is re-scanned after a keep-alive response (pipelining), that content-length and generated length agree, and that parse failures close only the connection. Response contents and header semantics are not decided.', '4/C16'),
 }
 
 NOT_YET = {}
